@@ -753,4 +753,28 @@ theorem render_content (a : ASide) (h : WFSideDesc a) (f : AFile) (hf : f ∈ a.
   rw [hm, Nat.add_sub_cancel, Nat.add_mul]
   omega
 
+/-! ### the executable check implies the hypotheses -/
+
+theorem wfDescB_sound (a : ASide) (h : Spec.Dos.wfDescB a = true) :
+    WFSideDesc a ∧ ∀ f ∈ a.files, 255 * (8 * (f.chain.length - 1) + f.lastSectors - 1) + f.lastBytes = f.content.length := by
+  unfold Spec.Dos.wfDescB at h
+  simp only [Bool.and_eq_true, List.all_eq_true, decide_eq_true_eq, beq_iff_eq, bne_iff_ne, ne_eq] at h
+  obtain ⟨⟨⟨⟨⟨⟨hfiles, h40⟩, h41⟩, hslots⟩, hchains⟩, hdel⟩, hdn⟩ := h
+  have hfile : ∀ f ∈ a.files, WFFile a f ∧ 255 * (8 * (f.chain.length - 1) + f.lastSectors - 1) + f.lastBytes = f.content.length := by
+    intro f hf
+    have := hfiles f hf
+    unfold Spec.Dos.wfFileB at this
+    simp only [Bool.and_eq_true, List.all_eq_true, decide_eq_true_eq, beq_iff_eq, bne_iff_ne, ne_eq, Bool.not_eq_true',
+      List.isEmpty_eq_false_iff] at this
+    obtain ⟨⟨⟨⟨⟨⟨⟨⟨⟨⟨⟨⟨h1, h2⟩, h3⟩, h4⟩, h5⟩, h6⟩, h7⟩, h8⟩, h9⟩, h10⟩, h11⟩, h12⟩, h13⟩ := this
+    exact ⟨⟨h1, h2, h3, ⟨h4, h5⟩, h6, h7, h8, fun b hb => by simpa using h9 b hb, ⟨h10, h11⟩, h12⟩, h13⟩
+  refine ⟨⟨fun f hf => (hfile f hf).1, h40, h41, hslots, hchains, ?_, hdn⟩, fun f hf => (hfile f hf).2⟩
+  intro d hd
+  obtain ⟨⟨⟨d1, d2⟩, d3⟩, d4⟩ := hdel d hd
+  refine ⟨d1, d2, ?_, fun f hf => d4 f hf⟩
+  -- first byte 00: `getD 0 1 = 0` excludes the empty list, so `getD 0 0 = 0` as well
+  cases hq : d.2 with
+  | nil => rw [hq] at d2; simp at d2
+  | cons x xs => rw [hq] at d3; simpa using d3
+
 end Moto.Disk
